@@ -11,7 +11,7 @@ ambient  ar=<n>,aq=<n>
 schedule labels separated by `,` (`-` = none). `S` starts the request (the worker runs until it blocks); the worker
          settles after every label except the arming labels PFo/PFc/HG:
          S  R<k>:<code>:<d><t>  X<k>:<reason>  PFo|PFc  HG  PT  GT  DR  CC  TM<code>
-         H<k>:<code>:<d><t> (head of a streamed response: the worker forwards it and waits for the body)  E<k> (body ended)
+         B<k>:<code>:<d><t> (head of a streamed response: the worker forwards it and waits for the body)  E<k> (body ended)
 -/
 namespace MosnVerif.Drive.Downstream
 open MosnVerif.Drive MosnVerif.Model.Downstream MosnVerif.Gen.ProxyPhase MosnVerif.Gen.ProxyReason
@@ -85,7 +85,7 @@ def parseLabel (s : String) : Option Label :=
       let r ← reasonOfName r
       pure (.upReset k r)
     | _ => none
-  else if s.startsWith "H" then
+  else if s.startsWith "B" then
     match (dropS s 1).splitOn ":" with
     | [k, code, dt] => do
       let k ← k.toNat?
